@@ -21,6 +21,8 @@ enum Obj {
     B,
     /// g12v1 index 7: the control handler answers NOT_SUPPORTED
     F,
+    /// two headers: g12v1 index 7 (refused by the handler), then g12v1 index 3 (accepted)
+    G,
 }
 
 impl Obj {
@@ -34,16 +36,21 @@ impl Obj {
                 v
             }
             Obj::F => app::prefixed8(12, 1, &[(7, app::crob(0x03, 1, 100, 200, 0))]),
+            Obj::G => {
+                let mut v = app::prefixed8(12, 1, &[(7, app::crob(0x03, 1, 100, 200, 0))]);
+                v.extend(app::prefixed8(12, 1, &[(3, app::crob(0x03, 1, 100, 200, 0))]));
+                v
+            }
         }
     }
     fn count(self) -> usize {
         match self {
-            Obj::B => 2,
+            Obj::B | Obj::G => 2,
             _ => 1,
         }
     }
     fn select_succeeds(self) -> bool {
-        self != Obj::F
+        self != Obj::F && self != Obj::G
     }
 }
 
@@ -389,7 +396,10 @@ impl Scenario for C04 {
                     let n_objs: usize = if frag.len() >= 2 { app::walk(&frag[2..], false).map(|h| h.iter().map(|x| x.objects.len()).sum()).unwrap_or(0) } else { 0 };
                     // a SELECT with more controls than the configured limit is refused (TOO_MANY_OPS)
                     let within_limit = self.cfg.max_controls.map(|m| n_objs <= m as usize).unwrap_or(true);
-                    frag.len() >= 2 && frag[2..] != f_bytes[..] && app::walk(&frag[2..], false).is_ok() && within_limit
+                    // the handler refuses index 7: a SELECT succeeds only if every object of every header does
+                    let any_refused = frag.len() >= 2 && app::walk(&frag[2..], false).map(|h| h.iter().any(|x| x.group == 12 && x.objects.iter().any(|o| o.index == Some(7)))).unwrap_or(false);
+                    let _ = &f_bytes;
+                    frag.len() >= 2 && !any_refused && app::walk(&frag[2..], false).is_ok() && within_limit
                 };
                 let was_armed = model.armed.is_some();
                 if let Some(exec) = model.on_fragment(frag, *src, now, select_ok) {
@@ -569,6 +579,7 @@ fn scenarios(tier: &str) -> Vec<C04> {
     v.push(mk("full-d4-seq0", full_alphabet(), 4, 0));
     v.push(mk("full-d3-seq13", full_alphabet(), 3, 13));
     v.push(mk("full-d3-seq14", full_alphabet(), 3, 14));
+    v.push(mk("reducedG-d4-seq0", reduced_alphabet(Obj::G), 4, 0));
     // a non-default limit of one control per request: the two-object set B is refused
     v.push(C04 {
         name: "limit1-reducedB-d4-seq0".to_string(),
